@@ -187,7 +187,7 @@ class TlcResult:
 
 
 def tlc(module, cfg, workers=None, simulate=None, depth=None, seed=None, env=None, timeout=600,
-        out_file=None, heap="8g", deadlock=False, coverage=True, extra=None, dfs=False):
+        out_file=None, heap="8g", deadlock=False, coverage=True, extra=None, dfs=False, parse=True):
     """Run TLC on spec/<module>.tla with spec/<cfg>. Returns TlcResult. Raises Broken on tool failure."""
     os.makedirs(os.path.join(BUILD, "tlc"), exist_ok=True)
     meta = os.path.join(BUILD, "tlc", "meta-%s-%d-%d" % (os.path.basename(cfg), os.getpid(), random.randrange(1 << 30)))
@@ -253,7 +253,21 @@ def tlc(module, cfg, workers=None, simulate=None, depth=None, seed=None, env=Non
             t += r.coverage[a][0]
             g += r.coverage[a][1]
         r.coverage[a] = (t, g)
-    if out_file and os.path.exists(out_file):
+    if out_file and os.path.exists(out_file) and not parse:
+        # fast path: only unquote the lines (each is a JSON string holding a JSON document)
+        n = 0
+        with open(out_file) as fh, open(out_file + ".tmp", "w") as fo:
+            for line in fh:
+                line = line.strip()
+                if not line:
+                    continue
+                if line.startswith('"'):
+                    line = json.loads(line)
+                fo.write(line + "\n")
+                n += 1
+        os.replace(out_file + ".tmp", out_file)
+        r.emitted_count = n
+    elif out_file and os.path.exists(out_file):
         with open(out_file) as fh:
             for line in fh:
                 line = line.strip()
